@@ -29,7 +29,7 @@ CORPUS = [
     "seek 0 1,2,3,4,5,6,7,8 T0:26.1.0.0,2.100.3.1,2.101.2.2,26.0.0.0,2.5.1.0 T100:13.9.0.0,2.40.0.0 T101:2.41.0.0",
     "seek 0 1,2,3,4 T0:11.-32768.0.0,2.1.2.0,16.120.0.0,27.9.0.0,2.2.2.0 P:-32768",
     # a loop point set in a subroutine lands at the end of the calling track: the loop section takes no
-    # time and the player must end the track (repository fix 20edf98; it hung before)
+    # time and the player must end the track (repository fix d90bcf9; it hung before)
     "seek 0 1,2,3,4,5,6 T0:8.100.0.0 T100:7.0.0.0,2.9.1.1",
     "seek 0 1,2,3,4,5,6 T0:8.100.0.0,13.3.0.0 T100:2.9.1.1,7.0.0.0,2.8.1.0",
 ]
